@@ -1,2 +1,137 @@
-(** C06 - theorem file under construction *)
-From Vivid Require Import Actor.Core.
+(** C06 - killing an actor terminates its whole subtree, children first, once each.
+
+    Model: Actor/Core.v (ActorCore), tied to the real runtime by lock-step replay (bin/check C06).
+    [reachable s]: s is the state after SOME event list (schedule) from the initial state with SOME external
+    scripts; user code, supervision decisions and hook outcomes are data, so every theorem holds for all of them.
+    Derived notions: Actor/SpecLife.v.  Statements only; proofs in Actor/ProofsLife*.v. *)
+From Coq Require Import List NArith ZArith Bool.
+From Vivid Require Import Base.Tm Actor.Core Actor.CoreRun Actor.SpecLife Actor.ProofsLife Actor.ProofsLifeInv Actor.ProofsLifeSum
+  Actor.ProofsLifePhase Actor.ProofsLifeGen Actor.ProofsLifeTree Actor.ProofsLifeEx.
+Import ListNotations.
+Local Open Scope N_scope.
+
+(** ============================ (a) state invariants ============================ *)
+
+(** a context marked Killed has no children left (checkAndMarkKilled requires an empty children map, ActorOf is
+    refused afterwards) *)
+Theorem C06_killed_no_children s a x :
+  reachable s -> get s a = Some x -> a_state x = Killed -> a_children x = [].
+Proof. exact (killed_no_children s a x). Qed.
+
+(** a zombie (failed restart) is Killed *)
+Theorem C06_zombie_is_killed s a x :
+  reachable s -> get s a = Some x -> a_zombie x = true -> a_state x = Killed.
+Proof. exact (zombie_is_killed s a x). Qed.
+
+(** a handler's instructions are pending only while the consumer is inside HandleEnvelop *)
+Theorem C06_pending_implies_busy s a x :
+  reachable s -> get s a = Some x -> a_pend x <> [] -> is_busy (a_cons x) = true.
+Proof. exact (pending_implies_busy s a x). Qed.
+
+(** the state only moves Running -> Killing -> Killed -> (Running): per atomic instruction, the state of the
+    executing context changes only in [ICheckMark] and [IRestartFinish] ... *)
+Theorem C06_state_changes_only_in s t h i s' front x :
+  exec1 s t h i = (s', front) -> get s (self_of t) = Some x ->
+  exists x', get s' (self_of t) = Some x' /\
+    (i <> ICheckMark -> i <> IRestartFinish -> a_state x' = a_state x) /\
+    (i <> IUnzombie -> i <> IRestartFinish -> a_zombie x' = a_zombie x).
+Proof. exact (exec1_state_changes s t h i s' front x). Qed.
+
+(** ... [ICheckMark] only moves Killing to Killed (and only without children) ... *)
+Theorem C06_mark_step s t h x :
+  get s (self_of t) = Some x ->
+  (a_children x = [] /\ a_state x = Killing /\
+   exists x', fst (exec1 s t h ICheckMark) = set_actor s (self_of t) x' /\ a_state x' = Killed /\ a_children x' = []) \/
+  ((a_children x <> [] \/ a_state x <> Killing) /\ exec1 s t h ICheckMark = (s, [])).
+Proof. exact (exec1_ICheckMark_cases s t h x). Qed.
+
+(** ... HandleEnvelop itself only moves Running to Killing (OnKill, RestartMessage) and leaves the children
+    map and the zombie flag alone *)
+Theorem C06_dispatch_state s a x e s1 ins y :
+  get s a = Some x -> dispatch s a x e = (s1, ins) -> get s1 a = Some y ->
+  a_children y = a_children x /\ a_zombie y = a_zombie x /\
+  (a_state y = a_state x \/ (a_state x = Running /\ a_state y = Killing)).
+Proof. exact (dispatch_state_children s a x e s1 ins y). Qed.
+
+(** ============================ (b) the cleanup notifies once ============================ *)
+
+(** cleanupIfNotRestarting: UnsubscribeAll; registry delete; then the remaining instructions are exactly: one
+    OnKilled(self) to the watchers (one Enqueue per watcher: [IEnqAny] over the watcher list), one OnKilled(self)
+    to the parent (if any), one ActorKilledEvent, mailbox.Resume *)
+Theorem C06_cleanup_notifies_once s t held x :
+  get s (self_of t) = Some x ->
+  exec1 s t held ICleanup =
+    (set_reg (set_subs s (unsub_all (subs s) (a_path x))) (aremove (reg s) (a_path x)),
+     (match a_watchers x with
+      | [] => []
+      | l => [IEnqAny true (map snd l) (RObj (self_of t)) (MKilled (RObj (self_of t)))]
+      end)
+     ++ (match a_parent x with
+         | Some p => [IEnq true (RObj p) (RObj (self_of t)) (MKilled (RObj (self_of t))); IEnqDone]
+         | None => []
+         end)
+     ++ [IPub evKilled (actor_key x); IResume1]).
+Proof. exact (exec1_ICleanup s t held x). Qed.
+
+(** the path is released: FindActor fails, the name can be registered again *)
+Theorem C06_cleanup_releases_path (r : list (path * aid)) p : alookup (aremove r p) p = None.
+Proof. exact (alookup_aremove_same r p). Qed.
+
+(** other paths are not touched *)
+Theorem C06_cleanup_keeps_others (r : list (path * aid)) p q : path_eqb q p = false -> alookup (aremove r p) q = alookup r q.
+Proof. exact (alookup_aremove_other r p q). Qed.
+
+(** the event-stream subscriptions are gone: no subscriber map contains the path any more *)
+Theorem C06_cleanup_unsubscribes l p ty m : In (ty, m) (unsub_all l p) -> alookup m p = None.
+Proof. exact (unsub_all_spec l p ty m). Qed.
+
+(** a released context ([released], Actor/SpecLife.v: Killed, nothing pending that can lead to a cleanup or a
+    restart, and the IUnzombie pending if it still is a zombie) stays released for ever ... *)
+Theorem C06_released_is_final a s ev :
+  reachable s -> (exists x, get s a = Some x /\ released x) -> err (step s ev) = false ->
+  exists x', get (step s ev) a = Some x' /\ released x'.
+Proof. exact (fun Hr => released_stable a s ev (SInv_reachable s Hr)). Qed.
+
+(** ... and in every run every context executes its cleanup at most once ([run_tr]: the atomic instructions
+    executed, Actor/SpecLife.v): nobody is reported terminated twice *)
+Theorem C06_reported_at_most_once scs evs a :
+  err (run_events evs (init_with scs)) = false ->
+  (length (filter (is_cleanup_of a) (run_tr evs (init_with scs))) <= 1)%nat.
+Proof. exact (cleanup_at_most_once scs evs a). Qed.
+
+(** ============================ examples ============================ *)
+
+(** a parent (/1, context 1) with two children (/1/1, /1/2: contexts 2, 3) is killed by an external caller: all
+    three end Killed with no children, the registry is empty again, the parent's behaviour has seen exactly two
+    OnKilled of its children (and then its own), each child was reported before the parent, and each of the
+    three contexts executed its cleanup exactly once *)
+Example C06_ex_kill_tree :
+  err tree_final = false /\ reg tree_final = [] /\
+  map (fun x => (a_path x, a_state x, a_children x)) (actors tree_final) =
+    [([], Running, []); ([1], Killed, []); ([1; 1], Killed, []); ([1; 2], Killed, [])] /\
+  seen_of 1 (olog tree_final) =
+    [MLaunch; MKill (RObj 0) false; MKilled (RObj 2); MKilled (RObj 3); MKilled (RObj 1)] /\
+  map (fun p => match p with (TA b, _) => b | _ => 0%nat end)
+      (filter (fun p => match p with (_, ICleanup) => true | _ => false end) (run_tr tree_events (init_with tree_scripts))) = [2; 3; 1]%nat.
+Proof. vm_compute. repeat split. Qed.
+
+(** a released context exists in a reachable state (hypotheses of [C06_released_is_final] are satisfiable) *)
+Example C06_ex_released :
+  reachable tree_final /\ exists x, get tree_final 2 = Some x /\ released x.
+Proof.
+  split; [exists tree_scripts, tree_events; split; [reflexivity|vm_compute; reflexivity]|].
+  eexists. split; [vm_compute; reflexivity|]. vm_compute. repeat split. discriminate.
+Qed.
+
+Print Assumptions C06_killed_no_children.
+Print Assumptions C06_zombie_is_killed.
+Print Assumptions C06_pending_implies_busy.
+Print Assumptions C06_state_changes_only_in.
+Print Assumptions C06_mark_step.
+Print Assumptions C06_dispatch_state.
+Print Assumptions C06_cleanup_notifies_once.
+Print Assumptions C06_cleanup_releases_path.
+Print Assumptions C06_cleanup_keeps_others.
+Print Assumptions C06_cleanup_unsubscribes.
+Print Assumptions C06_released_is_final.
+Print Assumptions C06_reported_at_most_once.
